@@ -860,7 +860,9 @@ def expected_reexports(p: Dict[str, Any], multi: bool = False) -> List[Dict[str,
                                   "members": members_of(p, di, pc) if kind == "class" else []})
                 elif as_ in R["all"] and orig not in defs and idx.get(f"{tq}.{orig}") and not (O["hasAll"] and orig in O["all"]):
                     si = idx[f"{tq}.{orig}"]          # a sub-module re-exported (possibly under another name)
-                    if f"{tq}.{orig}" != ".".join(mod_path(p, ri - 1)) + "." + as_:
+                    # (only a PACKAGE can take a module in: C02 'modules sit only in packages' - a plain module listing a
+                    #  module in its __all__ leaves it where it is)
+                    if R["pkg"] and f"{tq}.{orig}" != ".".join(mod_path(p, ri - 1)) + "." + as_:
                         found.append({"site": [si, 0], "kind": "module", "old": f"{tq}.{orig}",
                                       "new": ".".join(mod_path(p, ri - 1)) + "." + as_, "rex": ri, "origin": oi,
                                       "members": [(n, pc2) for n, (k2, pc2) in top_level_defs(p, si).items()], "member_origin": si})
